@@ -1570,6 +1570,7 @@ package xpath
 //@   mode int
 //@   props C06 C10 C17 C15 C08
 //@   loop 0 invariant[sign-parity@C08] p.r.ntok >= old(p.r.ntok) && minus == ((p.r.ntok - old(p.r.ntok)) % 2 == 1)     // one negation per '-' token consumed
+//@   ensures[operand-kept@C08] bound(opnd, 0) && ite(minus, as(result, *operatorNode).Left == ver(opnd, 0), result == ver(opnd, 0))     // the operand is what parseUnionExpr delivered, negated or as it is
 //@   ensures[negation@C08] minus ==> is(result, *operatorNode) && as(result, *operatorNode).Op == "*" && is(as(result, *operatorNode).Right, *operandNode) && as(as(result, *operatorNode).Right, *operandNode).Val == box(float(0 - 1))
 //@   requires[depth@C06] p != nil && 0 <= p.d && p.d <= 200
 //@   maypanic
